@@ -224,6 +224,9 @@ def r5(R, repo):
   for u in unpack:
     names = [x.id for x in ast.walk(u.targets[0]) if isinstance(x, ast.Name)]
     for nm in names:
+      if nm == '_':
+        R.fail(key_of(gw, 'every part of fn_out is consumed') + ' :: _ @%s' % astu.short(u.targets[0], 40), (gw, u), '`%s` throws a part of the transformed function\'s result away (`_`): on the other branches that position is the updated argument state, which must be merged back (process_out) so that the forward pass\'s side effects reach the caller\'s objects' % astu.short(u))
+        continue
       if nm.startswith('_'):
         continue
       key = key_of(gw, 'every part of fn_out is consumed') + ' :: %s @%s' % (nm, astu.short(u.targets[0], 40))
